@@ -193,6 +193,17 @@ def step (md : Mode) (line : String) : Mode × String :=
         let e := (s' a.toNat!).getD ⟨0, 0⟩
         (.rl limit s', s!"{if ev.served then "S" else "B"} {e.first} {e.count}")
     | _ => (md, "bad")
+  | ["FLOOD", n, t] =>
+    -- n requests, one each from addresses no other line uses, at one instant: `Cfg.RL.step` per request
+    match md with
+    | .rl limit s =>
+      if limit = 0 then (md, s!"F {n.toNat!}")
+      else
+        let (s', k) := (List.range n.toNat!).foldl (fun (acc : RL.State × Nat) i =>
+          let (s1, ev) := RL.step limit acc.1 (20000 + i) t.toInt!
+          (s1, if ev.served then acc.2 + 1 else acc.2)) (s, 0)
+        (.rl limit s', s!"F {k}")
+    | _ => (md, "bad")
   | ["P", name] =>
     match md with
     | .sw r => if r.closed then (md, "bad") else let (r', a) := probe r name; (.sw r', a)
